@@ -17,6 +17,11 @@ type C11Case struct {
 	Seq      SeqCase `json:"seq"`
 	LowUse   int     `json:"low_use"`   // threshold used by every primary GC cycle (1..100)
 	KillMode []int   `json:"kill_mode"` // per pool key: 0 = remove, 1 = overwrite (mutable stores)
+	// IGCMode: the index cycles of the closure run the scan for unreferenced
+	// files in every other cycle (0, like the periodic collector does from
+	// time to time), never (1: records are reaped file by file only) or
+	// always (2).
+	IGCMode int `json:"igc_mode,omitempty"`
 }
 
 type c11Stats struct {
@@ -28,7 +33,7 @@ type c11Stats struct {
 	SkippedPrecond  bool
 }
 
-const c11Rule = "rapid-generated histories on the multihash primary (small files, one fixed low-use threshold 1..100 per case, every GC cycle preceded by a flush as the statement requires) followed by a generated kill phase that removes or overwrites every key living in a non-current primary file and rewrites every bucket that refers into a non-current index file, flush, then [primary cycle, index cycle, flush] repeated; " +
+const c11Rule = "rapid-generated histories on the multihash primary (small files, one fixed low-use threshold 1..100 per case, every GC cycle preceded by a flush as the statement requires) followed by a generated kill phase that removes or overwrites every key living in a non-current primary file and rewrites every bucket that refers into a non-current index file, flush, then [primary cycle, index cycle, flush] repeated (the index cycles with the scan for unreferenced files every other time, never, or always - drawn per case); " +
 	"oracle = validity predicates: the directory becomes byte-identical across two consecutive rounds within 10+3*(records+files) rounds; at that fixed point every targeted primary file and every unreferenced targeted index file has length 0 or is gone, a dead non-empty file that is the oldest one when the first cycle visits it is unlinked and the first-file number advances past it, no non-current primary file with live records is low-use by the case's threshold; StorageSize right after a cycle <= StorageSize right before it + 2, and growth at the following flush <= outstanding work reported before that flush + 2; contents still equal the reference map; " +
 	"non-trivial = the kill phase emptied >=2 primary files one of which was not the oldest; distinct = distinct canonical JSON of the case"
 
@@ -45,6 +50,7 @@ func genC11(t *rapid.T) C11Case {
 	c.Seq.Ops = genOps(t, m, len(c.Seq.Keys), c.Seq.Cfg, 6, 40, false)
 	c.LowUse = []int{1, 10, 25, 50, 75, 85, 100}[rapid.IntRange(0, 6).Draw(t, "lowuse")]
 	c.KillMode = rapid.SliceOfN(rapid.IntRange(0, 1), len(c.Seq.Keys), len(c.Seq.Keys)).Draw(t, "killmode")
+	c.IGCMode = weighted(t, "igcmode", []int{2, 2, 1})
 	return c
 }
 
@@ -269,7 +275,13 @@ func c11Closure(r *seqRunner, step int, c C11Case, pc *pointCounter, csp *c11Sta
 					_, err = mp.GC(gcCtx(0), int64(c.LowUse))
 				} else {
 					what = "igc"
-					_, _, err = s.Index().VerifGC(gcCtx(0), n%2 == 1)
+					scanFree := n%2 == 1
+					if c.IGCMode == 1 {
+						scanFree = false
+					} else if c.IGCMode == 2 {
+						scanFree = true
+					}
+					_, _, err = s.Index().VerifGC(gcCtx(0), scanFree)
 				}
 				if err != nil {
 					// A failing cycle is not a violation by itself (the
